@@ -24,6 +24,7 @@ def run(ctx: Ctx, chk) -> None:
     chk.run_rule(chain_eq, ctx)
     chk.run_rule(verdep1, ctx)
     chk.run_rule(except1, ctx)
+    chk.run_rule(except2, ctx)
     chk.run_rule(tables.handler_state_rule, ctx)
     chk.run_rule(reject_order, ctx)
 
@@ -313,6 +314,7 @@ def except1(ctx: Ctx, chk) -> None:
             if cal is not None:
                 flush = any(f.fq in flush_fqs for f, _fr in tables.reachable_defs(ctx, cal, V))
                 for f in tables.chain_and_helpers(ctx, cal, V):
+                    f = ctx.inl(f, lambda h: not h.name.startswith("handle_") and h.fq not in flush_fqs)  # shared bookkeeping helpers, specialised to this call
                     for n in ctx.own_nodes(f):
                         if isinstance(n, ast.Assign) and any(isinstance(t, ast.Attribute) and t.attr == "sleeping" for t in n.targets):
                             sleeping = True
@@ -321,3 +323,72 @@ def except1(ctx: Ctx, chk) -> None:
                 chk.ok(rule, key, "marks sleeping and flushes" if wakes else "neither marks sleeping nor flushes", cal.chain()[-1].func.where if cal else "")
             else:
                 chk.refute(rule, f"internal-{value}::{V}::flush={flush},sleeping={sleeping}", f"under protocol {V} internal type {value} {'flushes' if flush else 'does not flush'} and {'marks' if sleeping else 'does not mark'} the node sleeping; the statement says it {'does both' if wakes else 'does neither'}", cal.chain()[-1].func.where if cal else I.vmod(V).relpath, version=V)
+
+
+def _payload_signature(ctx: Ctx, f: FuncInfo, flush_fqs: set) -> dict:
+    """What a handler definition does with the message apart from the sleeping mark and the flush: the calls and
+    tests applied to the payload, the attribute stores, the rejections and the exception types it translates
+    (helpers written out, locals substituted)."""
+    from ..prov import Canon
+
+    fi = ctx.inl(f, lambda h: not h.name.startswith("handle_") and h.fq not in flush_fqs)
+    cn = Canon(ctx.I, fi)
+    uses, stores, raises, catches = set(), set(), set(), set()
+    for n in ctx.own_nodes(fi):
+        if isinstance(n, (ast.Call, ast.Compare)) or (isinstance(n, ast.UnaryOp) and isinstance(n.op, ast.Not)):
+            t = cn.canon(n)
+            if "In.payload" in t:
+                # a rejection built from the payload / message is not a use of the payload's value
+                par = ctx.prog.parents.get(n)
+                if isinstance(par, ast.Raise):
+                    continue
+                uses.add(t)
+        if isinstance(n, ast.Assign):
+            for tg in n.targets:
+                if isinstance(tg, ast.Attribute) and tg.attr != "sleeping":
+                    stores.add((cn.canon(tg), cn.canon(n.value)))
+        if isinstance(n, ast.Raise) and n.exc is not None:
+            x = n.exc.func if isinstance(n.exc, ast.Call) else n.exc
+            raises.add(norm(x).rsplit(".", 1)[-1])
+        if isinstance(n, ast.ExceptHandler) and n.type is not None:
+            tys = n.type.elts if isinstance(n.type, ast.Tuple) else [n.type]
+            catches.add(tuple(sorted(norm(t).rsplit(".", 1)[-1] for t in tys)))
+    # uses nested in other uses say nothing more (int(In.payload) inside a store is already listed)
+    return {"payload uses": uses, "stores": stores, "rejections": raises, "translated exceptions": catches}
+
+
+def except2(ctx: Ctx, chk) -> None:
+    rule = "EXCEPT-2"
+    chk.rule(rule, "the heartbeat response differs between 2.0/2.1 and 2.2 in nothing but the named exception: with the sleeping mark and the flush set aside, both definitions apply the same conversions and tests to the payload, store the same attributes, raise the same rejections and translate the same exception types - a payload accepted under one version is accepted, and recorded as the same number, under the other")
+    I = ctx.I
+    cells = tables.handler_cells(ctx)
+    flush_fqs = {f.fq for f in sb.flush_functions(ctx)}
+    defs = {}
+    for V in ("2.0", "2.1", "2.2"):
+        if V in cells and cells[V].get(("internal", HEARTBEAT_RESPONSE)) is not None:
+            defs[V] = cells[V][("internal", HEARTBEAT_RESPONSE)].chain()[-1].func
+    if "2.2" not in defs or not (set(defs) - {"2.2"}):
+        raise AnalysisError("EXCEPT-2: anchor vanished: heartbeat response handlers of 2.0/2.1 and 2.2")
+    new = defs["2.2"]
+    done = set()
+    for V in ("2.0", "2.1"):
+        old = defs.get(V)
+        if old is None or old in done:
+            continue
+        done.add(old)
+        chk.instance(rule)
+        key = f"{new.fq}::vs::{old.fq}"
+        if old is new:
+            chk.ok(rule, key, "one definition for all 2.x versions", new.where)
+            continue
+        sa_, sb_ = _payload_signature(ctx, old, flush_fqs), _payload_signature(ctx, new, flush_fqs)
+        diffs = []
+        for part in sa_:
+            if sa_[part] != sb_[part]:
+                only_a = sorted(map(str, sa_[part] - sb_[part]))
+                only_b = sorted(map(str, sb_[part] - sa_[part]))
+                diffs.append(f"{part}: only in {old.module.name.rsplit('.', 1)[-1]} {only_a}, only in {new.module.name.rsplit('.', 1)[-1]} {only_b}")
+        if not diffs:
+            chk.ok(rule, key, f"same payload handling: {sorted(sa_['payload uses'])}, stores {sorted(x[0] for x in sa_['stores'])}", new.where)
+        else:
+            chk.refute(rule, key, f"the heartbeat response handlers of protocol {V} and 2.2 differ beyond the sleeping mark and the flush - " + "; ".join(diffs)[:600] + ": a heartbeat payload one of them accepts (or the number it records) is refused (or recorded differently) by the other, so the same history yields different messages, errors and registry under the two versions", old.where)
